@@ -4,6 +4,7 @@ import random
 import re
 
 from harness.lib.framework import Prop, coq_list, coq_opt, coq_str
+from harness.lib.looputil import permute_ready
 
 TAG = re.compile(r"^(0|[1-9][0-9]*)(\.(0|[1-9][0-9]*))*$")
 STATUS = {"SKIPPED": "Skipped", "COMPLETED": "Completed", "FAILED": "Failed", "CANCELLED": "Cancelled",
@@ -784,10 +785,7 @@ class C06(Prop):
             class ShuffleLoop(asyncio.SelectorEventLoop):
                 def _run_once(self):
                     if c["sched"] and len(self._ready) > 1:
-                        items = list(self._ready)
-                        rnd.shuffle(items)
-                        self._ready.clear()
-                        self._ready.extend(items)
+                        permute_ready(self._ready, rnd.shuffle)   # thread-safe, same order (harness/lib/looputil.py)
                     super()._run_once()
 
             class Policy(asyncio.DefaultEventLoopPolicy):
